@@ -299,6 +299,119 @@ def object_script_roundtrip(chk, env, tag, sc, dag, stats):
             return
 
 
+# ----------------------------------------------------------------------------- layout sweep on printed formulas
+def layout_formula(env, kind, Ls):
+    """A formula with one long String constant (filler, length Ls[k]) in front of each of the eight
+    copies of a structured token; returns (formula, markers)."""
+    from pysmt.typing import BOOL, INT, REAL, STRING, BVType
+    from fractions import Fraction
+    m = env.formula_manager
+    s, t = m.Symbol("s", STRING), m.Symbol("t", STRING)
+    parts, marks = [], []
+    for k, L in enumerate(Ls):
+        parts.append(m.Equals(s, m.String(chr(97 + k) * L)))
+        if kind == "string-escaped-quotes":
+            parts.append(m.Equals(t, m.String('%dhe said "hi"' % k)))
+            marks.append('"%dhe said' % k)
+        elif kind == "string-only-quotes":
+            parts.append(m.Equals(t, m.String('"' * (k + 1))))
+            marks.append(' "' + '""' * (k + 1) + '")')
+        elif kind == "quoted-symbol":
+            parts.append(m.Symbol("p q\nr%d" % k, BOOL))
+            marks.append("|p q\nr%d|" % k)
+        elif kind == "binary":
+            parts.append(m.Equals(m.Symbol("v", BVType(16)), m.BV(0b1011000011110000 + k, 16)))
+            marks.append("#b1011000011110" + format(k, "03b"))
+        elif kind == "numeral":
+            parts.append(m.LE(m.Symbol("i", INT), m.Int(12345678901234567890 * 10 + k)))
+            marks.append("12345678901234567890%d" % k)
+        elif kind == "decimal":
+            parts.append(m.LE(m.Symbol("r", REAL), m.Real(Fraction(12345670 + k))))
+            marks.append("1234567%d.0" % k)
+        else:
+            raise ValueError(kind)
+    return m.And(parts), marks
+
+
+FORMULA_KINDS = ("string-escaped-quotes", "string-only-quotes", "quoted-symbol", "binary", "numeral", "decimal")
+
+
+def run_formula_sweep(chk, tier, stats):
+    """parse(print(f)) is f whatever the offsets at which the tokens of print(f) fall: f contains long
+    String constants that slide each structured token across the offsets B-24 .. B+24 of every edge B."""
+    from . import layout
+    n = bad = unplaced = 0
+    for kind in FORMULA_KINDS:
+        for dag in (False, True):
+            offsets = layout.OFFSETS if not dag else ((-2, -1, 0, 1) if tier == "quick" else layout.OFFSETS)
+            if tier == "quick" and kind in ("binary", "numeral", "decimal") and not dag:
+                offsets = tuple(range(-12, 13))
+            # positions of the markers and of the fillers in the text printed with fillers of length 1
+            # (the DAG printer writes the conjuncts in reverse order: what precedes what is read off the text)
+            nb = len(layout.BOUNDS)
+            env0 = Environment()
+            f0, marks = layout_formula(env0, kind, [1] * nb)
+            t0 = script_text(env0, f0, dag)
+            start = t0.find("(assert")
+            mpos = [t0.find(mk, start) for mk in marks]
+            fpos = [t0.find('(= s "%s")' % chr(97 + k), start) for k in range(nb)]
+            if min(mpos) < 0 or min(fpos) < 0:
+                unplaced += len(offsets)
+                continue
+            order = sorted(range(nb), key=lambda j: mpos[j])
+            for d in offsets:
+                Ls, fixed, want, bi = [1] * nb, set(), {}, 0
+                for j in order:
+                    before = [i for i in range(nb) if fpos[i] < mpos[j]]
+                    free = [i for i in before if i not in fixed]
+                    if not free:
+                        continue
+                    shift = sum(Ls[i] - 1 for i in before)
+                    i = max(free, key=lambda x: fpos[x])
+                    L = layout.BOUNDS[bi] + d - mpos[j] - shift + 1
+                    if L < 1:
+                        continue
+                    Ls[i] = L
+                    fixed.update(free)
+                    want[j] = layout.BOUNDS[bi] + d
+                    bi += 1
+                env = Environment()
+                f, marks = layout_formula(env, kind, Ls)
+                text = script_text(env, f, dag)
+                start = text.find("(assert")
+                pos = [text.find(mk, start) for mk in marks]
+                if len(want) < nb - 1 or any(pos[j] != want[j] for j in want):
+                    unplaced += 1
+                    continue
+                n += 1
+                try:
+                    h = parse_in(env, text).commands[-1].args[0]
+                    why = None if h is f else "parse(print(f)) is not f"
+                except Exception as ex:  # noqa
+                    h, why = None, "parse(print(f)) raises %s: %s" % (type(ex).__name__, str(ex)[:200])
+                if why:
+                    bad += 1
+                    diff = None
+                    if isinstance(h, FNode):
+                        a, b2 = list(f.args()), list(h.args())
+                        for j, (x, y) in enumerate(zip(a, b2)):
+                            if x is not y:
+                                diff = (j, x.serialize()[:120], y.serialize()[:120])
+                                break
+                        if diff is None and len(a) != len(b2):
+                            diff = ("number of conjuncts", len(a), len(b2))
+                    chk.violation({"kind": "input", "what": why + " when a token of the printed text straddles a power-of-two offset",
+                                   "token_kind": kind, "daggify": dag, "offset_of_token_start_relative_to_each_edge": d,
+                                   "edges": list(layout.BOUNDS), "token_positions": sorted(pos), "filler_lengths": Ls,
+                                   "first_difference(conjunct, printed, parsed back)": diff,
+                                   "repro": "harness.c09.layout_formula(Environment(), %r, %r) printed with daggify=%r" % (kind, Ls, dag),
+                                   "text_around_edges": [text[max(0, p - 30):p + 40] for p in sorted(pos)[:5]]},
+                                  key="layout:formula:%s" % kind)
+    stats["layout_formula_roundtrips"] = n
+    stats["layout_formula_failures"] = bad
+    stats["layout_formula_unplaced"] = unplaced
+
+
 # ----------------------------------------------------------------------------- scripts
 def cmd_key(c, rename):
     def k(a):
@@ -552,6 +665,10 @@ def run(tier):
         for dag in (False, True):
             script_roundtrip(chk, t, dag, stats)
             chk.count(("c09s", t, dag))
+    # ---- layout: the reading must not depend on where the tokens lie in the character stream
+    run_formula_sweep(chk, tier, stats)
+    from . import layout
+    layout.run_text_sweep(chk, tier, stats, kinds=["string-escaped-quotes", "string-only-quotes", "quoted-symbol"])
     # ---- scripts built from formulas: one printer / one parser for all commands
     oenv = Environment()
     for tag, sc in script_objects(oenv, rnd, 60 if tier == "quick" else 1500):
